@@ -23,12 +23,40 @@ EXPLANATION = (
 )
 
 
+def simultaneous_substitution_rule(program, res, rule="C07-S3"):
+    """composing with a map of pipelines puts every pipeline under the leaves it is named for *at once*: one replace_leaves(map).  Substituting one key
+    after the other (`res = res.replace_leaves({key: p})` in a loop over the map) lets a later entry rewrite the leaves *inside* a pipeline that an
+    earlier entry inserted — {'x': pipeline over y, 'y': pipeline over x} no longer equals running the map's pipelines first"""
+    mod = program.module("view_representations")
+    n_calls = 0
+    for f in program.all_functions():
+        if f.module is not mod:
+            continue
+        for c in ast.walk(f.node):
+            if isinstance(c, ast.Call) and isinstance(c.func, ast.Attribute) and c.func.attr == "replace_leaves":
+                n_calls += 1
+        for loop in ast.walk(f.node):
+            if not isinstance(loop, (ast.For, ast.While)):
+                continue
+            for st in ast.walk(loop):
+                if isinstance(st, ast.Assign) and len(st.targets) == 1 and isinstance(st.targets[0], ast.Name) and isinstance(st.value, ast.Call) \
+                        and isinstance(st.value.func, ast.Attribute) and st.value.func.attr == "replace_leaves" \
+                        and isinstance(st.value.func.value, ast.Name) and st.value.func.value.id == st.targets[0].id:
+                    res.analysed(f)
+                    res.fail_at(rule, f, f"sequential-leaf-substitution:{f.name}",
+                                f"`{unparse(st)[:70]}` inside a loop substitutes the entries of a map one after the other: a later key also rewrites the leaves of the pipelines "
+                                f"already inserted, so composing with {{'x': <pipeline over y>, 'y': <pipeline over x>}} differs from running the map's pipelines first", st)
+    res.ok(rule, f"no replace_leaves call accumulates over the entries of a map ({n_calls} calls looked at): leaves are substituted simultaneously", nontrivial=n_calls > 0)
+    res.expect_count(rule, "replace_leaves call sites", n_calls, 10)
+
+
 def run(program, res, tier):
     model = NodeModel(program)
     res.rule("C07-S1", "replace_leaves forwards every semantic field into the builder parameter that feeds it")
     res.rule("C07-S1b", "no constructor argument survives only in a derived field that replace_leaves does not forward")
     res.rule("C07-S2", "every resolved call binds to its callee's signature")
     res.rule("C07-S3", ">>/act_on wiring and boundary-column checks")
+    simultaneous_substitution_rule(program, res)
     res.assumptions.append("derived-field table (sa/nodes.py DERIVED), re-confirmed against constructor dependencies each run")
     for (kn, f, why) in model.confirm_derived():
         res.fail("C07-S1", f"view_representations:{kn}.__init__", f"derived:{f}", why, "data_algebra/view_representations.py",
@@ -526,6 +554,23 @@ def _s3(program, res):
             vals = [dotted_name(x) for x in v.args[0].values]
             if vals != [bname]:
                 res.fail_at("C07-S3", vao, "splice", f"splices {vals} instead of {bname}", r.stmt)
+    if not found:
+        # the splice may have moved into a helper method of the class: follow one call
+        vr_cls = program.cls("view_representations", "ViewRepresentation")
+        for r in g.returns():
+            v = r.stmt.value
+            if isinstance(v, ast.Call) and isinstance(v.func, ast.Attribute) and unparse(v.func.value) == "self":
+                h = vr_cls.find_method(v.func.attr)
+                if h is not None and any(isinstance(c, ast.Call) and isinstance(c.func, ast.Attribute) and c.func.attr == "replace_leaves" for c in ast.walk(h.node)) \
+                        and any(bname in {x.id for x in ast.walk(a_) if isinstance(x, ast.Name)} for a_ in list(v.args) + [k.value for k in v.keywords]):
+                    found = True
+                    res.analysed(h)
+                    asserts = [a_ for a_ in ast.walk(h.node) if isinstance(a_, ast.Assert) and unparse(a_.test).count(".column_names") >= 2]
+                    if asserts:
+                        res.ok("C07-S3", f"ViewRepresentation.act_on splices through {h.name}, which asserts equal column sets")
+                    else:
+                        res.fail_at("C07-S3", vao, "column-guard", f"{h.name} (the splice of act_on) compares no column sets before replace_leaves", r.stmt)
+                    break
     if not found:
         raise AnalysisError("ViewRepresentation.act_on: no replace_leaves({key: b}) return found")
 
